@@ -2,8 +2,9 @@
     stay Coq's extracted datatypes). *)
 From Coq Require Import List ZArith.
 From Coq Require Extraction ExtrOcamlBasic.
-From Unodb Require Import Base.Lex Base.Bytes Encode.EncModel Art.ArtModel Art.ArtIter.
+From Unodb Require Import Base.Lex Base.Bytes Encode.EncModel Art.ArtModel Art.ArtIter Lock.LockModel.
 Extraction Language OCaml.
 Extraction "model.ml"
   enc_init enc_step enc_run decode_seq ty_of ty_width lex_compare f32 f64 enc_tuple comp_canon
-  db0 db_get db_insert db_remove db_clear db_empty db_scan db_scan_from db_scan_range db_scan_from_pinned.
+  db0 db_get db_insert db_remove db_clear db_empty db_scan db_scan_from db_scan_range db_scan_from_pinned
+  linit lstep lrun lrun_diag.
